@@ -940,7 +940,7 @@ func (s *stlStyler) update(sa *StyleAttributes) {
 // WriteToSTL writes subtitles in .stl format
 func (s Subtitles) WriteToSTL(o io.Writer) (err error) {
 	// Do not write anything if no subtitles
-	if len(s.Items) == 0 {
+	if s.Items = nonNilItems(s.Items); len(s.Items) == 0 {
 		err = ErrNoSubtitlesToWrite
 		return
 	}
